@@ -12,7 +12,8 @@ import (
 
 // Protos lists the proxy protocols a server can speak in the harness topologies.
 // "ss128"/"ss256": Shadowsocks 2022 single-user; "ssmulti": 2022 multi-user (identity header);
-// "socks5", "socks5auth", "none", "http" (TCP only), "httpauth" (TCP only).
+// "socks5", "socks5auth", "none", "http" (TCP only), "httpauth" (TCP only), "httptls" / "httpmtls" (TCP only, HTTPS proxy
+// without / with client certificate; the configuration then needs Topo.Certs()).
 var UDPProtos = []string{"ss128", "ss256", "ssmulti", "socks5", "none"}
 var TCPProtos = []string{"ss128", "ss256", "ssmulti", "socks5", "socks5auth", "none", "http", "httpauth"}
 
@@ -45,17 +46,17 @@ func ServerKey(srv, proto string) []byte { return forge.Key(keyLen(proto), "svx/
 
 // ServerOpts tunes a server document.
 type ServerOpts struct {
-	TCP, UDP     bool
-	BatchMode    string // "" | "no"
-	NATTimeout   string // e.g. "5m0s"; "" = default
-	MTU          int
-	DisableWait  bool
-	WaitTimeout  string
-	Extra        map[string]any
-	UDPExtra     map[string]any
-	TCPExtra     map[string]any
-	SendChanCap  int
-	Host         string // listen host; default 127.0.0.1 ("[::]" = dual stack)
+	TCP, UDP    bool
+	BatchMode   string // "" | "no"
+	NATTimeout  string // e.g. "5m0s"; "" = default
+	MTU         int
+	DisableWait bool
+	WaitTimeout string
+	Extra       map[string]any
+	UDPExtra    map[string]any
+	TCPExtra    map[string]any
+	SendChanCap int
+	Host        string // listen host; default 127.0.0.1 ("[::]" = dual stack)
 }
 
 // Server returns the JSON object of a server listening on 127.0.0.1:port.
@@ -126,6 +127,12 @@ func (t *Topo) Server(name, proto string, port int, o ServerOpts) map[string]any
 	case "httpauth":
 		s["protocol"] = "http"
 		s["http"] = map[string]any{"users": []any{map[string]any{"username": "hu", "password": "hp"}}, "enableBasicAuth": true}
+	case "httptls": // HTTPS proxy: the configuration needs t.Certs()
+		s["protocol"] = "http"
+		s["http"] = map[string]any{"certList": "tls-list", "enableTLS": true}
+	case "httpmtls": // HTTPS proxy that requires a client certificate
+		s["protocol"] = "http"
+		s["http"] = map[string]any{"certList": "tls-list", "clientCAs": "tls-ca", "enableTLS": true, "requireAndVerifyClientCert": true}
 	default:
 		panic("unknown proto " + proto)
 	}
@@ -166,6 +173,14 @@ func (t *Topo) ClientFor(name, srv, proto string, port int, user int, tcp, udp b
 	case "httpauth":
 		c["protocol"] = "http"
 		c["http"] = map[string]any{"username": "hu", "password": "hp", "useBasicAuth": true}
+		delete(c, "enableUDP")
+	case "httptls":
+		c["protocol"] = "http"
+		c["http"] = map[string]any{"useTLS": true, "serverName": TLSServerName, "rootCAs": "tls-ca"}
+		delete(c, "enableUDP")
+	case "httpmtls":
+		c["protocol"] = "http"
+		c["http"] = map[string]any{"useTLS": true, "serverName": TLSServerName, "rootCAs": "tls-ca", "certList": "tls-list"}
 		delete(c, "enableUDP")
 	default:
 		panic("unknown proto " + proto)
